@@ -456,6 +456,9 @@ def run(ctx) -> core.Report:
         rep.corr_mismatches.append(d)
 
     fn_cache = {}
+    returned = {}
+    del J.RETAINED[:]
+    del J.RETAINED_FAILS[:]
     for tag, kind, e, V, xs, params, idx in metas:
         key = (id(e), kind, tuple(id(v) for v in V))
         if key not in fn_cache:
@@ -464,7 +467,32 @@ def run(ctx) -> core.Report:
         x = np.array(xs, dtype=float)
         pname = fn if isinstance(fn, str) else fn.__name__
         rep.histogram[f"{kind}:{pname}"] = rep.histogram.get(f"{kind}:{pname}", 0) + 1
-        got = fn if isinstance(fn, str) else J.grab(lambda: flat(fn(x)))
+        raw_out = fn if isinstance(fn, str) else J.grab(lambda: fn(x))
+        got = raw_out if isinstance(raw_out, str) else J.grab(lambda: flat(raw_out))
+        # results of earlier calls stay valid (checklist 18): the arrays this callable returned at earlier points must be
+        # unchanged after this call; every returned array also goes to the pool that is re-checked after calls on other objects
+        hist = returned.setdefault(key, [])
+        for raw0, snap0, xs0 in hist[-3:]:
+            if not J.same_bits(raw0, snap0):
+                f = {"what": "an array returned by an earlier call was changed by a later call on the same compiled callable "
+                             "(the returned array aliases a buffer that later calls overwrite)", "kind": "call-sequence",
+                     "failure_class": "earlier-result-changed", "deriv": kind, "path": pname, "sequence_name": "earlier-then-later",
+                     "sequence": [["new", [float(a) for a in xs0]], ["new", [float(a) for a in xs]]], "call_index": 0,
+                     "got": np.asarray(raw0).tolist(), "want": np.asarray(snap0).tolist(), "tag": tag, "require_finite": False}
+                f.update(J.safe_payload([e], V, xs0, params))
+                rep.oracle_failures.append(f)
+                hist.clear()
+                break
+        if isinstance(raw_out, np.ndarray) and not isinstance(got, str):
+            snap = np.array(raw_out, dtype=float, copy=True)
+            hist.append((raw_out, snap, list(xs)))
+            del hist[:-3]
+            if len(J.RETAINED) < 20000 and idx % 7 == 0:
+                info = {"deriv": kind, "path": pname, "tag": tag}
+                info.update(J.safe_payload([e], V, xs, params))
+                J.RETAINED.append((raw_out, snap, info))
+        if len(J.RETAINED) >= 4000:
+            J.recheck_retained()
         for which, out in (("sv", outs[idx]), ("float", outs[idx + 1])):
             if isinstance(got, str) or out.startswith("raise"):
                 if (got if isinstance(got, str) else "") != out:
@@ -520,6 +548,10 @@ def run(ctx) -> core.Report:
             rep.corr_mismatches.append({"kind": "evalsv", "tag": tag, "expr": Ser(with_ids=False).expr(g)[:300],
                                         "point": {k: J.num_tok(float(v)) for k, v in point.items()},
                                         "impl": real, "model": model})
+    J.recheck_retained()
+    for f in J.RETAINED_FAILS:
+        rep.oracle_failures.append(f)
+    rep.histogram["retained_arrays_rechecked"] = rep.histogram.get("retained_arrays_rechecked", 0) + 1
     for arr, idx in san_metas:
         a = np.array(arr, dtype=float)
         res = J.quiet(lambda: _sanitize_derivatives(a))
